@@ -39,6 +39,13 @@ func foldExtBody(f, a, la, b, lb, n string) string {
 	return fmt.Sprintf("(=> (forall ((k Int)) (=> (and (<= 0 k) (< k %s)) (= (select %s (+ %s k)) (select %s (+ %s k))))) (= (%s %s %s %s) (%s %s %s %s)))", n, a, la, b, lb, f, a, la, n, f, b, lb, n)
 }
 
+// foldExtLemma is the asserted form: the two counts are separate variables related by a hypothesis, so that the trigger
+// (the pair of sums) also fires when the counts are equal only modulo arithmetic.
+func foldExtLemma(f string) string {
+	return fmt.Sprintf("(forall ((a %s) (la Int) (n Int) (b %s) (lb Int) (m Int)) (! (=> (and (= n m) (forall ((k Int)) (=> (and (<= 0 k) (< k n)) (= (select a (+ la k)) (select b (+ lb k)))))) (= (%s a la n) (%s b lb m))) :pattern ((%s a la n) (%s b lb m))))",
+		arrII, arrII, f, f, f, f)
+}
+
 func foldTheory() string {
 	var b strings.Builder
 	for _, op := range foldOps {
@@ -78,8 +85,7 @@ func init() {
 		pb, ps := "fb_"+op.name+"_", "fs_"+op.name+"_"
 		Lemmas = append(Lemmas, Lemma{
 			Name: op.name + "-depends-only-on-the-summed-elements",
-			SMT: fmt.Sprintf("(forall ((a %s) (la Int) (b %s) (lb Int) (n Int)) (! %s :pattern ((%s a la n) (%s b lb n))))",
-				arrII, arrII, foldExtBody(f, "a", "la", "b", "lb", "n"), f, f),
+			SMT:  foldExtLemma(f),
 			Uses: []string{f},
 			Steps: []LemmaStep{
 				{Name: "induction-base", Decls: decl(pb), Goal: sImp(fmt.Sprintf("(<= %sn 0)", pb), foldExtBody(f, pb+"a", pb+"la", pb+"b", pb+"lb", pb+"n"))},
@@ -114,8 +120,8 @@ func init() {
 	b, s := "mb_", "ms_"
 	Lemmas = append(Lemmas, Lemma{
 		Name: "pairing-product-depends-only-on-the-paired-elements",
-		SMT: fmt.Sprintf("(forall ((p %s) (pl Int) (q %s) (ql Int) (p2 %s) (pl2 Int) (q2 %s) (ql2 Int) (n Int)) (! %s :pattern ((mpair_1 p pl q ql n) (mpair_1 p2 pl2 q2 ql2 n))))",
-			arrII, arrII, arrII, arrII, mpairExtBody("p", "pl", "q", "ql", "p2", "pl2", "q2", "ql2", "n")),
+		SMT: fmt.Sprintf("(forall ((p %s) (pl Int) (q %s) (ql Int) (n Int) (p2 %s) (pl2 Int) (q2 %s) (ql2 Int) (m Int)) (! (=> (and (= n m) (forall ((k Int)) (=> (and (<= 0 k) (< k n)) (and (= (select p (+ pl k)) (select p2 (+ pl2 k))) (= (select q (+ ql k)) (select q2 (+ ql2 k))))))) (= (mpair_1 p pl q ql n) (mpair_1 p2 pl2 q2 ql2 m))) :pattern ((mpair_1 p pl q ql n) (mpair_1 p2 pl2 q2 ql2 m))))",
+			arrII, arrII, arrII, arrII),
 		Uses: []string{"mpair_1"},
 		Steps: []LemmaStep{
 			{Name: "induction-base", Decls: decl(b, arrs, ints), Goal: sImp("(<= "+b+"n 0)", mpairExtBody(b+"p", b+"pl", b+"q", b+"ql", b+"p2", b+"pl2", b+"q2", b+"ql2", b+"n"))},
